@@ -189,3 +189,57 @@ func (l *Life) CorpusOpen(scenario string) int {
 	}
 	return len(order)
 }
+
+// LeanCrossScenario: merges in which the merged cardinality of a term crosses a multiple of 1024
+// only through deletions, with the term missing from other inputs of the merge (so that every
+// per-input quantity of the merge - deletion bitmap, renumbering, dictionary - must be taken from
+// the right input), under the cardinality-dependent chunk modes.
+func (l *Life) LeanCrossScenario(tag string) {
+	l.Reset(1024, tag)
+	l.light = true
+	n := 1900 + l.r.Intn(300)
+	a := l.Build(boundaryBatch(l, n, 0, []int{700 + l.r.Intn(50), 3}), 1026)
+	b := l.Build(boundaryBatch(l, n, 10000, []int{1027 + l.r.Intn(8), 2052 + l.r.Intn(8), 1024, 40}), 1026)
+	c := l.Build(boundaryBatch(l, n/2, 20000, []int{1}), 1025)
+	if a == nil || b == nil || c == nil {
+		return
+	}
+	half := func(n int) Drop {
+		ds := Ints{}
+		for d := 0; d < n; d++ {
+			if l.r.Intn(2) == 0 {
+				ds = append(ds, d)
+			}
+		}
+		return Drop{Ds: ds}
+	}
+	few := func(n int) Drop {
+		ds := Ints{}
+		for d := 0; d < n; d++ {
+			if l.r.Intn(40) == 0 {
+				ds = append(ds, d)
+			}
+		}
+		return Drop{Ds: ds}
+	}
+	none := Drop{Nil: true, Ds: Ints{}}
+	plans := [][]Drop{{half(a.ndocs), none}, {none, few(b.ndocs)}, {few(a.ndocs), half(b.ndocs)}}
+	for i, p := range plans {
+		ins := []*hseg{a, b}
+		mode := []int{1026, 1025, 1026}[i]
+		if k, ok := l.Merge(ins, p, mode); ok {
+			if h := l.Open(k); h != nil {
+				l.Close(h)
+			}
+		}
+	}
+	// three inputs: the term of the middle input is missing from the first and the last
+	if k, ok := l.Merge([]*hseg{c, b, a}, []Drop{half(c.ndocs), none, half(a.ndocs)}, 1026); ok {
+		if h := l.Open(k); h != nil {
+			l.Close(h)
+		}
+	}
+	for _, h := range l.live() {
+		l.Close(h)
+	}
+}
